@@ -1,8 +1,11 @@
 use crate::fw::{Ctx, Report, Verdict};
 
 pub mod c14;
+pub mod c15;
 pub mod c16;
 pub mod c17;
+pub mod c18;
+pub mod c19;
 
 pub struct Entry {
     pub run: fn(&Ctx, &mut Report),
@@ -20,8 +23,11 @@ pub fn lookup(id: &str) -> Option<Entry> {
     }
     match id {
         "C14" => e!(c14),
+        "C15" => e!(c15),
         "C16" => e!(c16),
         "C17" => e!(c17),
+        "C18" => e!(c18),
+        "C19" => e!(c19),
         _ => None,
     }
 }
